@@ -37,6 +37,9 @@ def run(tier, seed):
     run_contracts(pack, [(Q.pflow_fg_update('C09'),), (Q.tds_fg_update('C09'),), (Q.call_models('C09'),), (Q.model_l_update_var('C09'),),
                          (Q.model_l_check_eq('C09', True),), (Q.model_l_check_eq('C09', False),)] +
                   [(Q.delegation('C09', n, m),) for n, m in (('l_update_var', 'l_update_var'), ('l_update_eq', 'l_check_eq'))])
+    # the quantity behind a limiter block with an output gain stays inside the scaled limits: all three regimes of GainLimiter
+    from contracts import C18 as B18
+    B18.gain_limiter_at_limits(pack, 'C09')
     from contracts.packutil import native_guard
     from contracts import bounded_limiters_run as BLR
     lname = 'C09/andes/core/discrete.py:Limiter;AntiWindup/bounded:flags-partition-and-limited-quantities-inside-limits-during-simulations'
@@ -55,4 +58,12 @@ def run(tier, seed):
                              'kind': 'bounded native: %s, every stored instant, constant limits, tolerance 5e-4' % ', '.join(c for c, _ in BLR.STORED_CASES)})
         if bads:
             pack.violation(sname, {'bounded': True, 'inputs': bads, 'native_cmd': 'contracts/bounded_limiters_run.py run_stored'})
+    mname = 'C09/andes/core/discrete.py:AntiWindup.check_eq/bounded:a-state-held-at-a-moving-limit-is-written-back-with-the-current-limit'
+    r = native_guard(pack, mname, BLR.run_moving_limit)
+    if r is not None:
+        nm, badm = r
+        pack.bounded.append({'function': 'AntiWindup.check_var / check_eq over successive evaluations with a falling upper limit', 'evaluations': nm,
+                             'counted_as_proved': False, 'kind': 'bounded native (real AntiWindup on stub arrays)'})
+        if badm:
+            pack.violation(mname, {'bounded': True, 'inputs': badm, 'native_cmd': 'contracts/bounded_limiters_run.py run_moving_limit'})
     return pack.finish()
